@@ -37,7 +37,7 @@ func init() {
 	hx.Register(&hx.Prop{
 		ID: "C10",
 		Rule: "server: exhaustive patterns (≤4 over {a,/,{,}}) × inputs (≤3 over {a,/,b}) plus URL-shaped pairs; " +
-			"schema: all environments of ≤2 definitions over the fragment leaf/allOf/items/$ref (depth ≤2) × 4 values, plus random ones; " +
+			"schema: all environments of ≤2 definitions over the fragment leaf/allOf/items/$ref (depth ≤2) × 2 values (4 in thorough), plus random ones; " +
 			"traffic: seeded documents assembled from pools of legal-but-unusual features (content-defined parameters and headers, bounds flags without bounds, multipleOf 0, " +
 			"uncompilable-looking patterns, discriminators, deepObject, recursive components, path items without operations, trailing-slash and templated servers) × " +
 			"byte-level requests/responses (any method, verbatim-template and mutated paths, hostile queries, content types and bodies) through both routers, " +
@@ -617,17 +617,9 @@ func cmpC10(c hx.Case, impl any, reply map[string]any) hx.Verdict {
 		mp := jbool(model, "panic")
 		v.IM = bad == mp
 		if bad && mp {
-			// the defect must be the recorded one: a panic in a stage the model names, or a crash it predicts
-			if _, isPanic := im["panic"]; isPanic {
-				v.IM = false
-				for _, s := range toStrs(model["stages"]) {
-					if s == jstr(im, "stage") {
-						v.IM = true
-					}
-				}
-			} else {
-				v.IM = jbool(model, "crash")
-			}
+			// the defect must be the recorded one: the crash the model predicts, not some panic
+			_, isPanic := im["panic"]
+			v.IM = !isPanic && jbool(model, "crash")
 		}
 		if mr, ok := model["route"].(string); ok && !bad {
 			ir := jstr(im, "route")
@@ -679,7 +671,10 @@ func genC10(ctx *hx.Ctx, emit func(hx.Case)) {
 	}
 	// ---- schema fragment: exhaustive small environments
 	shapes := c10SchemaShapes(2)
-	vals := []any{1, []any{}, []any{1}, []any{[]any{2}, 3}}
+	vals := []any{1, []any{[]any{2}, 3}}
+	if ctx.Thorough() {
+		vals = []any{1, []any{}, []any{1}, []any{[]any{2}, 3}}
+	}
 	for _, d0 := range shapes {
 		for _, v := range vals {
 			emit(hx.Case{"op": "schema", "defs": []any{d0}, "root": map[string]any{"ref": 0}, "value": v})
@@ -698,7 +693,7 @@ func genC10(ctx *hx.Ctx, emit func(hx.Case)) {
 		emit(hx.Case{"op": "schema", "defs": defs, "root": c10RandSchema(r, n, 2, false), "value": c10RandValue(r, 3)})
 	}
 	// ---- traffic
-	n := 5000
+	n := 4000
 	if ctx.Thorough() {
 		n = 60000
 	}
